@@ -136,7 +136,7 @@ package bindnode
 //@   before assignUInt assert[C09] carg0 == w
 //@   after Copy let checked = true
 //@   after assignUInt let checked = true
-//@   ensures[C01,C09,C11] err == nil ==> defined(checked)
+//@   ensures[C01,C09,C11,C12] err == nil ==> defined(checked)
 //@ func (*_assemblerRepr).AssignNode(node) (err)
 //@   nosafety
 //@   requires w != nil && node != nil
@@ -170,3 +170,15 @@ package bindnode
 //@   ensures[C09] (exists j mathint :: 0 <= j && j < len(typ.fields) && repkey(stg, typ.fields[j]) == key) || (forall j mathint :: 0 <= j && j < len(typ.fields) ==> typ.fields[j].name != r)
 //@   loop 0 invariant 0 - 1 <= rangeindex && rangeindex < len(fields) && fields == typ.fields
 //@   loop 0 invariant forall j mathint :: 0 <= j && j <= rangeindex ==> repkey(stg, fields[j]) != key
+
+// Representation level, enum as int: an integer is stored (or turned into a member name) only if
+// it is the representation value of a member of the enum — whatever Go kind the enum is bound to.
+//@ func (*_assemblerRepr).AssignInt(i) (err)
+//@   nosafety
+//@   requires w != nil && w.schemaType != nil
+//@   loop 0 invariant w != nil && w.schemaType != nil
+//   (assumed: the reflect setter inside createNonPtrVal writes the bound Go value, not the assembler)
+//@   after createNonPtrVal assume w.schemaType != nil
+//@   before SetInt assert[C09] reprInt == i && carg1 == i
+//@   before SetUint assert[C09] reprInt == i && carg1 == i && i >= 0
+//@   before AssignString assert[C09] reprInt == i && carg1 == member
